@@ -64,6 +64,10 @@ add("gating",
     + strs("fileinto", "reject", "envelope", "body", "vacation", "vacation-seconds", "variables",
            "date", "imap4flags", "copy", "mailbox", "relational", "regex", "nonesuch", "gt"),
     quick=5, thorough=6)
+add("tags2",
+    ids("if", "header", "address", "envelope", "size", "stop")
+    + tags(":matches", ":value", ":domain", ":all", ":under", ":comparator") + strs("a", "ge", "i;ascii-casemap") + [("num", "2M")],
+    prelude=req("relational", "envelope"), quick=5, thorough=7)
 add("nesting", ids("if", "not", "anyof", "true", "keep", "else"),
     punct=[("lp", ""), ("rp", ""), ("lc", ""), ("rc", ""), ("semi", ""), ("comma", "")], quick=11, thorough=13)
 add("lists",
